@@ -34,6 +34,11 @@ type szNackGen struct {
 	arrive  chan struct{}
 	release chan struct{}
 	done    chan struct{}
+	// cfg "uiw" = 1: a stream is unbound WHILE the loop is inside the RTCP writer with a NACK for it (the writer callback
+	// performs the UnbindRemoteStream), not between ticks
+	unbindInWrite bool
+	pending       uint32
+	didUnbind     bool
 }
 
 func (d *szNackGen) hook(name string, obj any) {
@@ -76,7 +81,15 @@ func (d *szNackGen) Reset(tb testing.TB, sc *szScript) map[string]int {
 	d.readers = map[uint32]interceptor.RTPReader{}
 	d.arrive, d.release, d.done = make(chan struct{}), make(chan struct{}), make(chan struct{})
 	verifhook.SetGate(d.hook)
+	d.unbindInWrite, d.pending, d.didUnbind = sc.Cfg["uiw"] == 1, 0, false
 	d.ic.BindRTCPWriter(interceptor.RTCPWriterFunc(func(p []rtcp.Packet, _ interceptor.Attributes) (int, error) {
+		for _, pkt := range p { // (runs on the loop goroutine, which holds no lock while it writes)
+			if n, ok := pkt.(*rtcp.TransportLayerNack); ok && d.pending != 0 && n.MediaSSRC == d.pending && !d.didUnbind {
+				d.ic.UnbindRemoteStream(szNackInfo(d.pending, true))
+				d.didUnbind = true
+			}
+		}
+
 		return len(p), nil
 	}))
 	d.wait() // the loop is parked at the start of a tick body
@@ -92,7 +105,15 @@ func (d *szNackGen) Bind(ssrc uint32, enabled bool) {
 }
 
 func (d *szNackGen) Unbind(ssrc uint32) {
-	d.ic.UnbindRemoteStream(szNackInfo(ssrc, true))
+	if d.unbindInWrite {
+		d.pending, d.didUnbind = ssrc, false
+		d.Tick(time.Time{}) // if this tick writes a NACK for the stream, the stream is unbound inside that write
+		d.pending = 0
+	}
+	if !d.didUnbind {
+		d.ic.UnbindRemoteStream(szNackInfo(ssrc, true))
+	}
+	d.didUnbind = false
 	delete(d.readers, ssrc)
 }
 
